@@ -78,6 +78,21 @@ var goTypes = map[string]reflect.Type{
 	"*string":  reflect.TypeOf((*string)(nil)),
 	"[]int":    reflect.TypeOf([]int(nil)),
 	"[]string": reflect.TypeOf([]string(nil)),
+	"int16":    reflect.TypeOf(int16(0)),
+	"int32":    reflect.TypeOf(int32(0)),
+	"uint16":   reflect.TypeOf(uint16(0)),
+	"uint32":   reflect.TypeOf(uint32(0)),
+	"*int8":    reflect.TypeOf((*int8)(nil)),
+	"*int16":   reflect.TypeOf((*int16)(nil)),
+	"*int32":   reflect.TypeOf((*int32)(nil)),
+	"*uint8":   reflect.TypeOf((*uint8)(nil)),
+	"*uint16":  reflect.TypeOf((*uint16)(nil)),
+	"*uint32":  reflect.TypeOf((*uint32)(nil)),
+	"[]int8":   reflect.TypeOf([]int8(nil)),
+	"[]int16":  reflect.TypeOf([]int16(nil)),
+	"[]int32":  reflect.TypeOf([]int32(nil)),
+	"[]uint16": reflect.TypeOf([]uint16(nil)),
+	"[]uint32": reflect.TypeOf([]uint32(nil)),
 }
 
 var identity int64 // every instantiated type gets a unique inert tag => a fresh runtime type => a cold decoder cache
@@ -102,11 +117,10 @@ func instantiate(t *Type) reflect.Type {
 		}
 		if len(f.Def) > 0 {
 			d := f.Def[0]
-			switch f.Kind {
-			case "[]int":
-				d = "[" + d + "]"
-			case "[]string":
+			if f.Kind == "[]string" {
 				d = "['" + d + "']"
+			} else if strings.HasPrefix(f.Kind, "[]") {
+				d = "[" + d + "]"
 			}
 			sb.WriteString(`default:"` + d + `" `)
 		}
